@@ -58,6 +58,7 @@ def tprims (c : Cfg) (env : TEnv) :
   setActiveTimer := fun o t => t.map fun s => { s with active := o }
   timersEnabled := fun t => !t.st.stopped
   setTimersEnabled := fun b t => t.map fun s => { s with stopped := !b }
+  setPersistent := fun b t => t.map fun s => { s with persistOn := b }
   durIsNone := fun d => decide (d = Dur.none)
   durEqInf := fun d => decide (d = Dur.inf)
   durationOf := fun _ oq => match oq with
@@ -105,6 +106,7 @@ theorem tprims_getActiveTimer (c : Cfg) (env : TEnv) : (tprims c env).getActiveT
 theorem tprims_setActiveTimer (c : Cfg) (env : TEnv) : (tprims c env).setActiveTimer = (fun o t => t.map fun s => { s with active := o }) := rfl
 theorem tprims_timersEnabled (c : Cfg) (env : TEnv) : (tprims c env).timersEnabled = (fun t => !t.st.stopped) := rfl
 theorem tprims_setTimersEnabled (c : Cfg) (env : TEnv) : (tprims c env).setTimersEnabled = (fun b t => t.map fun s => { s with stopped := !b }) := rfl
+theorem tprims_setPersistent (c : Cfg) (env : TEnv) : (tprims c env).setPersistent = (fun b t => t.map fun s => { s with persistOn := b }) := rfl
 theorem tprims_durIsNone (c : Cfg) (env : TEnv) : (tprims c env).durIsNone = (fun d => decide (d = Dur.none)) := rfl
 theorem tprims_durEqInf (c : Cfg) (env : TEnv) : (tprims c env).durEqInf = (fun d => decide (d = Dur.inf)) := rfl
 theorem tprims_durationOf (c : Cfg) (env : TEnv) : (tprims c env).durationOf = (fun _ oq => match oq with
@@ -148,7 +150,7 @@ theorem tprims_setOutput (c : Cfg) (env : TEnv) : (tprims c env).setOutput = (fu
 macro "ttsimp" "[" ts:Lean.Parser.Tactic.simpLemma,* "]" : tactic =>
   `(tactic| simp [Gen.TrM.seq, Gen.TrM.branch, Gen.TrM.call, Gen.TrM.assign, Gen.TrM.skip, Gen.TrM.matchOpt,
       Gen.TrM.upd, Gen.TrM.ret, Gen.TrM.raise, Gen.TrT.bindv, Gen.TrT.runProc, lift, TSt.map,
-      tprims_exc, tprims_getState, tprims_setState, tprims_getActiveTimer, tprims_setActiveTimer, tprims_timersEnabled, tprims_setTimersEnabled, tprims_durIsNone, tprims_durEqInf, tprims_durationOf, tprims_timePeriod, tprims_cmpZero, tprims_callLater, tprims_cancelled, tprims_cancel, tprims_timerWhen, tprims_loopToUnix, tprims_event, tprims_superStop, tprims_superStart, tprims_getSdata, tprims_setSdata, tprims_istateLen2, tprims_istatePad, tprims_istateUnpack, tprims_checkState, tprims_remaining, tprims_timedEvent, tprims_calcOutput, tprims_isUndef, tprims_setOutput,
+      tprims_exc, tprims_getState, tprims_setState, tprims_getActiveTimer, tprims_setActiveTimer, tprims_timersEnabled, tprims_setTimersEnabled, tprims_setPersistent, tprims_durIsNone, tprims_durEqInf, tprims_durationOf, tprims_timePeriod, tprims_cmpZero, tprims_callLater, tprims_cancelled, tprims_cancel, tprims_timerWhen, tprims_loopToUnix, tprims_event, tprims_superStop, tprims_superStart, tprims_getSdata, tprims_setSdata, tprims_istateLen2, tprims_istatePad, tprims_istateUnpack, tprims_checkState, tprims_remaining, tprims_timedEvent, tprims_calcOutput, tprims_isUndef, tprims_setOutput,
       setCtx_proj, emit_proj, enter_proj, setInput_proj, setNextEv_proj, excOf, $ts,*])
 
 theorem map_cancel_of_not_live (s : St) (id : Nat) (h : handleLive s id = false) :
